@@ -35,9 +35,11 @@ package consensus
 
 // seconds <-> nanoseconds used for the block / proposal timestamp
 //@ func secToNanoSec
+//@   loops 0
 //@   ensures [C19] @exact result == s * 1000000000
 //@   modifies nothing
 //@ func nanoSecToSec
+//@   loops 0
 //@   requires ns / 1000000000 <= 4294967295
 //@   ensures [C19] @exact result == ns / 1000000000
 //@   modifies nothing
@@ -46,55 +48,79 @@ package consensus
 // ---- bodies: every field goes into the encoded structure and comes back from it ----
 
 //@ func (prepareRequest).EncodeBinary
+//@   loops 0
 //@   modifies gEncoded
-//@   at call w.Encode: assert [C19] @allFields arg0.Timestamp == p.timestamp && arg0.Nonce == p.nonce && sametable(arg0.TransactionHashes, p.transactionHashes)
+//@   at call *.Encode: assert [C19] @allFields arg0.Timestamp == p.timestamp && arg0.Nonce == p.nonce && sametable(arg0.TransactionHashes, p.transactionHashes)
 //@   ensures [C19] @oneValue gEncoded == old(gEncoded) + 1
 //@ func (*prepareRequest).DecodeBinary
+//@   loops 0
+//@   modifies $decoded, heap prepareRequest.*, heap prepareRequestAux.*, heap box.*
 //@   ensures [C19] @allFields implies(result == nil, p.timestamp == decoded(prepareRequestAux).Timestamp && p.nonce == decoded(prepareRequestAux).Nonce && sametable(p.transactionHashes, decoded(prepareRequestAux).TransactionHashes))
 //@ func (prepareResponse).EncodeBinary
+//@   loops 0
 //@   modifies gEncoded
-//@   at call w.Encode: assert [C19] @allFields arg0.PreparationHash == p.preparationHash
+//@   at call *.Encode: assert [C19] @allFields arg0.PreparationHash == p.preparationHash
 //@ func (*prepareResponse).DecodeBinary
+//@   loops 0
+//@   modifies $decoded, heap prepareResponse.*, heap prepareResponseAux.*, heap box.*
 //@   ensures [C19] @allFields implies(result == nil, p.preparationHash == decoded(prepareResponseAux).PreparationHash)
 //@ func (changeView).EncodeBinary
+//@   loops 0
 //@   modifies gEncoded
-//@   at call w.Encode: assert [C19] @allFields arg0.Timestamp == c.timestamp
+//@   at call *.Encode: assert [C19] @allFields arg0.Timestamp == c.timestamp
 //@ func (*changeView).DecodeBinary
+//@   loops 0
+//@   modifies $decoded, heap changeView.*, heap changeViewAux.*, heap box.*
 //@   ensures [C19] @allFields implies(result == nil, c.timestamp == decoded(changeViewAux).Timestamp)
 //@   ensures [C19] @viewKept c.newViewNumber == old(c.newViewNumber)
 //@ func (recoveryRequest).EncodeBinary
+//@   loops 0
 //@   modifies gEncoded
-//@   at call w.Encode: assert [C19] @allFields arg0.Timestamp == m.timestamp
+//@   at call *.Encode: assert [C19] @allFields arg0.Timestamp == m.timestamp
 //@ func (*recoveryRequest).DecodeBinary
+//@   loops 0
+//@   modifies $decoded, heap recoveryRequest.*, heap recoveryRequestAux.*, heap box.*
 //@   ensures [C19] @allFields implies(result == nil, m.timestamp == decoded(recoveryRequestAux).Timestamp)
 //@ func (preCommit).EncodeBinary
+//@   loops 0
 //@   modifies gEncoded
-//@   at call w.Encode: assert [C19] @allFields arg0.Magic == c.magic
+//@   at call *.Encode: assert [C19] @allFields arg0.Magic == c.magic
 //@ func (*preCommit).DecodeBinary
+//@   loops 0
+//@   modifies $decoded, heap preCommit.*, heap preCommitAux.*, heap box.*
 //@   ensures [C19] @allFields implies(result == nil, c.magic == decoded(preCommitAux).Magic)
 //@ func (commit).EncodeBinary
+//@   loops 0
 //@   modifies gEncoded
-//@   at call w.Encode: assert [C19] @allFields sametable(arg0.Signature, c.signature)
+//@   at call *.Encode: assert [C19] @allFields sametable(arg0.Signature, c.signature)
 //@ func (*commit).DecodeBinary
+//@   loops 0
+//@   modifies $decoded, heap commit.*, heap commitAux.*, heap box.*
 //@   ensures [C19] @allFields implies(result == nil, sametable(c.signature, decoded(commitAux).Signature))
 //@ func (amevCommit).EncodeBinary
+//@   loops 0
 //@   modifies gEncoded
-//@   at call w.Encode: assert [C19] @allFields sametable(arg0.Data, c.data)
+//@   at call *.Encode: assert [C19] @allFields sametable(arg0.Data, c.data)
 //@ func (*amevCommit).DecodeBinary
+//@   loops 0
+//@   modifies $decoded, heap amevCommit.*, heap amevCommitAux.*, heap box.*
 //@   ensures [C19] @allFields implies(result == nil, sametable(c.data, decoded(amevCommitAux).Data))
 
 // ---- block header: the hashed and signed data is exactly the header, one encoded value ----
 
 //@ func (base).EncodeBinary
+//@   loops 0
 //@   modifies gEncoded
-//@   at call w.Encode: assert [C19] @allFields arg0.ConsensusData == b.ConsensusData && arg0.Index == b.Index && arg0.Timestamp == b.Timestamp && arg0.Version == b.Version && arg0.MerkleRoot == b.MerkleRoot && arg0.PrevHash == b.PrevHash && arg0.NextConsensus == b.NextConsensus
+//@   at call *.Encode: assert [C19] @allFields arg0.ConsensusData == b.ConsensusData && arg0.Index == b.Index && arg0.Timestamp == b.Timestamp && arg0.Version == b.Version && arg0.MerkleRoot == b.MerkleRoot && arg0.PrevHash == b.PrevHash && arg0.NextConsensus == b.NextConsensus
 //@   ensures [C19] @oneValue gEncoded == old(gEncoded) + 1
 //@ func (*neoBlock).GetHashData
+//@   loops 0
 //@   modifies gEncoded
 // what is encoded is this block's own header, not a copy that was changed on the way
 //@   at call *.EncodeBinary: assert [C19] @ownHeader recv.ConsensusData == b.base.ConsensusData && recv.Index == b.base.Index && recv.Timestamp == b.base.Timestamp && recv.Version == b.base.Version && recv.MerkleRoot == b.base.MerkleRoot && recv.PrevHash == b.base.PrevHash && recv.NextConsensus == b.base.NextConsensus
 //@   ensures [C19] @headerOnly gEncoded == old(gEncoded) + 1
 //@ func (*amevBlock).GetHashData
+//@   loops 0
 //@   modifies gEncoded
 // what is encoded is this block's own header, not a copy that was changed on the way
 //@   at call *.EncodeBinary: assert [C19] @ownHeader recv.ConsensusData == b.base.ConsensusData && recv.Index == b.base.Index && recv.Timestamp == b.base.Timestamp && recv.Version == b.base.Version && recv.MerkleRoot == b.base.MerkleRoot && recv.PrevHash == b.base.PrevHash && recv.NextConsensus == b.base.NextConsensus
@@ -112,40 +138,47 @@ package consensus
 //@   modifies $decoded, heap box.*, heap prepareRequest.*, heap prepareResponse.*, heap changeView.*, heap commit.*, heap amevCommit.*, heap preCommit.*, heap recoveryRequest.*, heap recoveryMessage.*, heap prepareRequestAux.*, heap prepareResponseAux.*, heap changeViewAux.*, heap commitAux.*, heap amevCommitAux.*, heap preCommitAux.*, heap recoveryRequestAux.*, heap recoveryMessageAux.*
 
 //@ func (message).EncodeBinary
+//@   loops 0
 //@   modifies gEncoded
 //@   requires m.payload != nil
-//@   at call w.Encode: assert [C19] @allFields arg0.CMType == m.cmType && arg0.ViewNumber == m.viewNumber
+//@   at call *.Encode: assert [C19] @allFields arg0.CMType == m.cmType && arg0.ViewNumber == m.viewNumber
 //@ func (*message).DecodeBinary
+//@   loops 0
 // a ChangeView body gets its target view from the envelope: view + 1 as a byte (255 wraps to 0, deliberately total)
-//@   wraps m.viewNumber+1
-//@   at call r.Decode: ghost gMessageAux = arg0
+//@   wraps *
+//@   at call *.Decode: ghost gMessageAux = arg0
 //@   modifies gMessageAux, $decoded, heap box.*, heap message.*, heap Payload.message, heap messageAux.*, heap prepareRequest.*, heap prepareResponse.*, heap changeView.*, heap commit.*, heap amevCommit.*, heap preCommit.*, heap recoveryRequest.*, heap recoveryMessage.*, heap prepareRequestAux.*, heap prepareResponseAux.*, heap changeViewAux.*, heap commitAux.*, heap amevCommitAux.*, heap preCommitAux.*, heap recoveryRequestAux.*, heap recoveryMessageAux.*
 //@   ensures [C19] @allFields implies(result == nil, m.cmType == gMessageAux.CMType && m.viewNumber == gMessageAux.ViewNumber && m.payload != nil)
 //@ ghost gMarshals Int
 //@ ghost gPayloadEncodes Int
 //@ func (Payload).EncodeBinary
+//@   loops 0
 //@   modifies gEncoded, gPayloadEncodes
 //@   ghost gPayloadEncodes = gPayloadEncodes + 1
 //@   ensures [C19] @counted gPayloadEncodes == old(gPayloadEncodes) + 1
 //@   requires p.message.payload != nil
-//@   at call w.Encode: assert [C19] @allFields arg0.Version == p.version && arg0.ValidatorIndex == p.validatorIndex && arg0.PrevHash == p.prevHash && arg0.Height == p.height
+//@   at call *.Encode: assert [C19] @allFields arg0.Version == p.version && arg0.ValidatorIndex == p.validatorIndex && arg0.PrevHash == p.prevHash && arg0.Height == p.height
 //@ func (*Payload).DecodeBinary
+//@   loops 0
 //@   requires p.hash == nil
-//@   at call r.Decode: ghost gPayloadAux = arg0
+//@   at call *.Decode: ghost gPayloadAux = arg0
 //@   ensures [C19] @allFields implies(result == nil, p.version == gPayloadAux.Version && p.validatorIndex == gPayloadAux.ValidatorIndex && p.prevHash == gPayloadAux.PrevHash && p.height == gPayloadAux.Height)
 //@   ensures [C19] @noStaleHash p.hash == nil
 
 // ---- the hash of a payload is computed from its present content: the cache field is never filled ----
 
 //@ func NewConsensusPayload
+//@   loops 0
 //@   ensures [C19] @fresh result != nil
 //@ func fromPayload
+//@   loops 0
 //@   modifies nothing
 //@   ensures [C19] @freshObject fresh(result)
 //@   requires recovery != nil
 //@   ensures [C19] @fresh result != nil && result.hash == nil && result.version == 0 && result.validatorIndex == 0
 //@   ensures [C19] @sameSlot result.message.cmType == t && result.message.viewNumber == recovery.ViewNumber() && result.height == recovery.Height() && result.message.payload == p
 //@ func (*Payload).SetValidatorIndex
+//@   loops 0
 //@   modifies heap Payload.validatorIndex
 //@   requires p.hash == nil
 //@   ensures [C19] @set p.validatorIndex == i
@@ -153,9 +186,11 @@ package consensus
 //@   ensures [C19] @noStaleHash p.hash == nil
 //@   ensures [C19] @restKept p.version == old(p.version) && p.prevHash == old(p.prevHash) && p.height == old(p.height) && p.message.cmType == old(p.message.cmType) && p.message.viewNumber == old(p.message.viewNumber) && p.message.payload == old(p.message.payload)
 //@ func (*Payload).UnmarshalUnsigned
+//@   loops 0
 //@   requires p.hash == nil
 //@   ensures [C19] @noStaleHash p.hash == nil
 //@ func (*Payload).Hash
+//@   loops 0
 //@   requires p.hash == nil && p.message.payload != nil
 //@   modifies gEncoded, gHashed, gLastHash, gMarshals, gPayloadEncodes
 // what is hashed is the unsigned encoding of the whole payload (header and message), produced once
@@ -164,6 +199,7 @@ package consensus
 //@   ensures [C19] @noStaleHash p.hash == nil
 //@   ensures [C19] @contentKept p.version == old(p.version) && p.validatorIndex == old(p.validatorIndex) && p.prevHash == old(p.prevHash) && p.height == old(p.height) && p.message.cmType == old(p.message.cmType) && p.message.viewNumber == old(p.message.viewNumber) && p.message.payload == old(p.message.payload)
 //@ func (Payload).MarshalUnsigned
+//@   loops 0
 //@   modifies gEncoded, gMarshals, gPayloadEncodes
 //@   ghost gMarshals = gMarshals + 1
 //@   ensures [C19] @wholePayload gMarshals == old(gMarshals) + 1 && gPayloadEncodes == old(gPayloadEncodes) + 1
@@ -179,6 +215,7 @@ package consensus
 //@ ghost gProposalVersion Int
 //@ ghost gProposalPrevHash Ref
 //@ func (*recoveryMessage).AddPayload
+//@   loops 0
 //@   requires p != nil
 //@   ghost gProposalVersion = ite(p.Type() == dbft.PrepareRequestType, as(Payload, p).version, gProposalVersion)
 //@   ghost gProposalPrevHash = ite(p.Type() == dbft.PrepareRequestType, as(Payload, p).prevHash, gProposalPrevHash)
@@ -198,8 +235,10 @@ package consensus
 //@   pure
 //@   ensures emod(result, 1000000000) == 0 && result / 1000000000 <= 4294967295 && result >= 0
 //@ func (prepareRequest).Timestamp
+//@   loops 0
 //@   ensures [C19] @wholeSeconds emod(result, 1000000000) == 0 && result / 1000000000 <= 4294967295 && result == p.timestamp * 1000000000
 //@ func (*recoveryMessage).GetPrepareRequest
+//@   loops 0
 //@   requires p != nil
 //@   ensures [C19] @none implies(old(m.prepareRequest) == nil, result == nil)
 //@   ensures [C19] @rebuilt implies(old(m.prepareRequest) != nil, result != nil && as(Payload, result).message.cmType == dbft.PrepareRequestType && as(Payload, result).message.viewNumber == p.ViewNumber() && as(Payload, result).height == p.Height() && as(Payload, result).validatorIndex == ind && as(Payload, result).hash == nil)
@@ -218,8 +257,9 @@ package consensus
 // the responses rebuilt from a recovery message: one per stored responder, in the recovery message's slot,
 // each carrying the hash of the stored proposal
 //@ func (*recoveryMessage).GetPrepareResponses
+//@   loops 1
 //@   requires p != nil
-//@   loop 1: invariant 0 <= idx && idx <= len(m.preparationPayloads) && len(retvar) == len(m.preparationPayloads) && m.preparationHash != nil
+//@   loop 1: invariant 0 <= idx && idx <= len(m.preparationPayloads) && implies(before(len(retvar)) == len(m.preparationPayloads), len(retvar) == len(m.preparationPayloads)) && implies(before(len(retvar)) != len(m.preparationPayloads), len(retvar) == idx) && m.preparationHash != nil
 //@   loop 1: invariant forall(k, 0, idx, retvar[k] != nil && as(Payload, retvar[k]).message.cmType == dbft.PrepareResponseType && as(Payload, retvar[k]).message.viewNumber == p.ViewNumber() && as(Payload, retvar[k]).height == p.Height() && as(Payload, retvar[k]).hash == nil)
 //@   loop 1: invariant forall(k, 0, idx, as(Payload, retvar[k]).validatorIndex == m.preparationPayloads[k].ValidatorIndex)
 //@   loop 1: invariant forall(k, 0, idx, as(Payload, retvar[k]).message.payload != nil && as(prepareResponse, as(Payload, retvar[k]).message.payload).preparationHash == *m.preparationHash)
@@ -232,8 +272,9 @@ package consensus
 
 // the other lists a recovery message gives back: one payload per stored entry, in the recovery message's slot
 //@ func (*recoveryMessage).GetCommits
+//@   loops 1
 //@   requires p != nil
-//@   loop 1: invariant 0 <= idx && idx <= len(m.commitPayloads) && len(retvar) == len(m.commitPayloads)
+//@   loop 1: invariant 0 <= idx && idx <= len(m.commitPayloads) && implies(before(len(retvar)) == len(m.commitPayloads), len(retvar) == len(m.commitPayloads)) && implies(before(len(retvar)) != len(m.commitPayloads), len(retvar) == idx)
 //@   loop 1: invariant forall(k, 0, idx, retvar[k] != nil && as(Payload, retvar[k]).message.cmType == dbft.CommitType && as(Payload, retvar[k]).message.viewNumber == p.ViewNumber() && as(Payload, retvar[k]).height == p.Height() && as(Payload, retvar[k]).hash == nil)
 //@   loop 1: invariant forall(k, 0, idx, as(Payload, retvar[k]).validatorIndex == m.commitPayloads[k].ValidatorIndex)
 //@   loop 1: invariant forall(k, 0, idx, as(Payload, retvar[k]).message.payload != nil && sametable(as(commit, as(Payload, retvar[k]).message.payload).signature, m.commitPayloads[k].Signature))
@@ -242,9 +283,10 @@ package consensus
 //@   ensures [C19] @sameSender forall(k, 0, len(result), as(Payload, result[k]).validatorIndex == m.commitPayloads[k].ValidatorIndex)
 //@   ensures [C19] @sameSignature forall(k, 0, len(result), sametable(as(commit, as(Payload, result[k]).message.payload).signature, m.commitPayloads[k].Signature))
 //@ func (*recoveryMessage).GetChangeViews
+//@   loops 1
 //@   requires p != nil
-//@   wraps cv.OriginalViewNumber+1
-//@   loop 1: invariant 0 <= idx && idx <= len(m.changeViewPayloads) && len(retvar) == len(m.changeViewPayloads)
+//@   wraps *
+//@   loop 1: invariant 0 <= idx && idx <= len(m.changeViewPayloads) && implies(before(len(retvar)) == len(m.changeViewPayloads), len(retvar) == len(m.changeViewPayloads)) && implies(before(len(retvar)) != len(m.changeViewPayloads), len(retvar) == idx)
 //@   loop 1: invariant forall(k, 0, idx, retvar[k] != nil && as(Payload, retvar[k]).message.cmType == dbft.ChangeViewType && as(Payload, retvar[k]).message.viewNumber == p.ViewNumber() && as(Payload, retvar[k]).height == p.Height() && as(Payload, retvar[k]).hash == nil)
 //@   loop 1: invariant forall(k, 0, idx, as(Payload, retvar[k]).validatorIndex == m.changeViewPayloads[k].ValidatorIndex)
 //@   loop 1: invariant forall(k, 0, idx, as(Payload, retvar[k]).message.payload != nil && as(changeView, as(Payload, retvar[k]).message.payload).newViewNumber == emod(m.changeViewPayloads[k].OriginalViewNumber + 1, 256))
@@ -253,9 +295,10 @@ package consensus
 //@   ensures [C19] @sameSlot forall(k, 0, len(result), result[k] != nil && as(Payload, result[k]).message.cmType == dbft.ChangeViewType && as(Payload, result[k]).message.viewNumber == p.ViewNumber() && as(Payload, result[k]).height == p.Height() && as(Payload, result[k]).hash == nil)
 //@   ensures [C19] @sameSender forall(k, 0, len(result), as(Payload, result[k]).validatorIndex == m.changeViewPayloads[k].ValidatorIndex)
 //@ func (*recoveryMessage).GetPreCommits
+//@   loops 1
 //@   requires p != nil
 //@   requires rmwf(m)
-//@   loop 1: invariant 0 <= idx && idx <= len(m.preCommitPayloads) && len(retvar) == len(m.preCommitPayloads)
+//@   loop 1: invariant 0 <= idx && idx <= len(m.preCommitPayloads) && implies(before(len(retvar)) == len(m.preCommitPayloads), len(retvar) == len(m.preCommitPayloads)) && implies(before(len(retvar)) != len(m.preCommitPayloads), len(retvar) == idx)
 //@   loop 1: invariant forall(k, 0, idx, retvar[k] != nil && as(Payload, retvar[k]).message.cmType == dbft.PreCommitType && as(Payload, retvar[k]).message.viewNumber == p.ViewNumber() && as(Payload, retvar[k]).height == p.Height() && as(Payload, retvar[k]).hash == nil)
 //@   loop 1: invariant forall(k, 0, idx, as(Payload, retvar[k]).validatorIndex == m.preCommitPayloads[k].ValidatorIndex)
 //@   loop 1: invariant forall(k, 0, idx, as(Payload, retvar[k]).message.payload != nil && as(preCommit, as(Payload, retvar[k]).message.payload).magic == be32(m.preCommitPayloads[k].Data))
@@ -267,23 +310,26 @@ package consensus
 
 // the recovery message's own encoding: every list goes into the encoded structure and comes back from it
 //@ func NewRecoveryMessage
+//@   loops 0
 //@   ensures [C19] @wellFormed result != nil
 // how often a preparation hash went to the encoder / came from the decoder, and where the decoder put it
 //@ ghost gHashWrites Int
 //@ ghost gHashReads Int
 //@ ghost gHashTarget Ref
 //@ func (recoveryMessage).EncodeBinary
+//@   loops 0
 //@   modifies gEncoded, gHashWrites
-//@   at call w.Encode<Uint256>: ghost gHashWrites = gHashWrites + 1
+//@   at call *.Encode<Uint256>: ghost gHashWrites = gHashWrites + 1
 // the stored preparation hash goes onto the wire whenever there is one
 //@   ensures [C19] @hashWritten implies(result == nil && m.preparationHash != nil, gHashWrites > old(gHashWrites))
-//@   at call w.Encode<recoveryMessageAux>: assert [C19] @allLists sametable(arg0.PreparationPayloads, m.preparationPayloads) && sametable(arg0.PreCommitPayloads, m.preCommitPayloads) && sametable(arg0.CommitPayloads, m.commitPayloads) && sametable(arg0.ChangeViewPayloads, m.changeViewPayloads)
+//@   at call *.Encode<recoveryMessageAux>: assert [C19] @allLists sametable(arg0.PreparationPayloads, m.preparationPayloads) && sametable(arg0.PreCommitPayloads, m.preCommitPayloads) && sametable(arg0.CommitPayloads, m.commitPayloads) && sametable(arg0.ChangeViewPayloads, m.changeViewPayloads)
 //@ func (*recoveryMessage).DecodeBinary
-//@   at call r.Decode<Uint256>: ghost gHashReads = gHashReads + 1
-//@   at call r.Decode<Uint256>: ghost gHashTarget = arg0
+//@   loops 1
+//@   at call *.Decode<Uint256>: ghost gHashReads = gHashReads + 1
+//@   at call *.Decode<Uint256>: ghost gHashTarget = arg0
 // a preparation hash read from the wire ends up in the message
 //@   ensures [C19] @hashRestored implies(result == nil && gHashReads > old(gHashReads), m.preparationHash != nil && m.preparationHash == gHashTarget)
-//@   at call r.Decode<recoveryMessageAux>: ghost gRecoveryAux = arg0
+//@   at call *.Decode<recoveryMessageAux>: ghost gRecoveryAux = arg0
 //@   loop 1: invariant 0 <= idx && idx <= len(gRecoveryAux.PreCommitPayloads) && forall(k, 0, idx, len(gRecoveryAux.PreCommitPayloads[k].Data) == 4)
 //@   ensures [C19] @allLists implies(result == nil, sameelems(m.preparationPayloads, gRecoveryAux.PreparationPayloads) && sameelems(m.preCommitPayloads, gRecoveryAux.PreCommitPayloads) && sameelems(m.commitPayloads, gRecoveryAux.CommitPayloads) && sameelems(m.changeViewPayloads, gRecoveryAux.ChangeViewPayloads))
 //@   ensures [C19] @wellFormed implies(result == nil, rmwf(m))
@@ -313,48 +359,60 @@ package consensus
 //@   ghost gVerifies = gVerifies + 1
 //@   ghost gVerOK = result == nil
 //@ func (commit).Signature
+//@   loops 0
 //@   ensures [C19] @fixedLength len(result) == 64
 //@ func (amevCommit).Signature
+//@   loops 0
 //@   ensures [C19] @fixedLength len(result) == 64
 
 // ---- blocks: the header is fixed at construction, signing and caching the hash do not touch it ----
 
 //@ func NewBlock
+//@   loops 0
 //@   requires timestamp / 1000000000 <= 4294967295
 //@   ensures [C19] @header result != nil && as(neoBlock, result).base.Index == index && as(neoBlock, result).base.PrevHash == prevHash && as(neoBlock, result).base.ConsensusData == nonce && as(neoBlock, result).base.Timestamp == timestamp / 1000000000 && as(neoBlock, result).base.Version == 0
 //@   ensures [C19] @noHashYet as(neoBlock, result).hash == nil && isnil(as(neoBlock, result).signature)
 // the header's Merkle root is the root of the tree over exactly the proposed hashes, in their order
 //@   ensures [C19] @root implies(len(txHashes) != 0, sametable(gTreeOver, txHashes) && as(neoBlock, result).base.MerkleRoot == gLastRootHash)
 //@ func (*neoBlock).SetTransactions
+//@   loops 0
 //@   modifies heap neoBlock.transactions
 //@ func (*neoBlock).Sign
+//@   loops 0
 //@   requires key != nil
 //@   modifies gEncoded, heap neoBlock.signature
 //@ func (*neoBlock).Verify
+//@   loops 0
 //@   requires pub != nil && len(sign) >= 64
 //@   modifies gEncoded, gVerifies, gVerOK
 // a signature is accepted only if the key's own check of this block's hash data accepted it
 //@   ensures [C19] @onlyByKey implies(result == nil, gVerifies == old(gVerifies) + 1 && gVerOK)
 //@ func (*neoBlock).Hash
+//@   loops 0
 //@   modifies gEncoded, gHashed, gLastHash, heap neoBlock.hash, heap box.*
 //@   ensures [C19] @cachedOnce implies(old(b.hash) != nil, b.hash == old(b.hash) && result == *old(b.hash))
 // a block whose transactions were set (an empty list included) is hashed: one hash over one encoded value, the header
 //@   ensures [C19] @hashedFromHeader implies(old(b.hash) == nil && !isnil(b.transactions), gHashed == old(gHashed) + 1 && gEncoded == old(gEncoded) + 1 && result == gLastHash && b.hash != nil && *b.hash == result)
 //@ func NewPreBlock
+//@   loops 0
 //@   requires timestamp / 1000000000 <= 4294967295
 //@   ensures [C19] @header result != nil && as(preBlock, result).base.Index == index && as(preBlock, result).base.PrevHash == prevHash && as(preBlock, result).base.ConsensusData == nonce && as(preBlock, result).base.Timestamp == timestamp / 1000000000 && as(preBlock, result).base.Version == 0
 //@   ensures [C19] @root implies(len(txHashes) != 0, sametable(gTreeOver, txHashes) && as(preBlock, result).base.MerkleRoot == gLastRootHash)
 //@ func (*amevBlock).SetTransactions
+//@   loops 0
 //@   modifies nothing
 //@ func (*amevBlock).Sign
+//@   loops 0
 //@   requires key != nil
 //@   modifies gEncoded, heap amevBlock.signature
 //@ func (*amevBlock).Verify
+//@   loops 0
 //@   requires pub != nil && len(sign) >= 64
 //@   modifies gEncoded, gVerifies, gVerOK
 // a signature is accepted only if the key's own check of this block's hash data accepted it
 //@   ensures [C19] @onlyByKey implies(result == nil, gVerifies == old(gVerifies) + 1 && gVerOK)
 //@ func (*amevBlock).Hash
+//@   loops 0
 //@   modifies gEncoded, gHashed, gLastHash, heap amevBlock.hash, heap box.*
 //@   ensures [C19] @cachedOnce implies(old(b.hash) != nil, b.hash == old(b.hash) && result == *old(b.hash))
 // a block whose transactions were set (an empty list included) is hashed: one hash over one encoded value, the header
@@ -363,23 +421,29 @@ package consensus
 // ---- byte-level readers check the length before they read ----
 
 //@ func (*Tx64).UnmarshalBinary
+//@   loops 0
 //@   requires t != nil
 //@   ensures [C19] @lengthChecked implies(result == nil, len(data) == 8)
 //@ func (*preBlock).Verify
+//@   loops 0
 //@   ensures [C19] @lengthChecked implies(result == nil, len(data) == 4)
 //@ func NewPreCommit
+//@   loops 0
 //@   requires len(data) >= 4
 //@   ensures [C19] @fresh result != nil
 //@   ensures [C19] @bigEndian as(preCommit, result).magic == be32(data)
 //@ func (preCommit).Data
+//@   loops 0
 //@   ensures [C19] @fourBytes len(result) == 4
 //@   ensures [C19] @bigEndian be32(result) == c.magic
 //@ func (*preBlock).Data
+//@   loops 0
 //@   ensures [C19] @fourBytes len(result) == 4
 
 // the anti-MEV block: the pre-block's header with the Merkle root recomputed over the final transaction list
 //@ pure Transaction.Hash
 //@ func NewAMEVBlock
+//@   loops 2
 //@   requires pre != nil && 0 <= m && m <= len(cnData) && forall(k, 0, m, len(cnData[k]) >= 4)
 //@   requires forall(k, 0, len(as(preBlock, pre).initialTransactions), as(preBlock, pre).initialTransactions[k] != nil)
 // the artificial envelope value is a wrapping sum
